@@ -590,6 +590,7 @@ func oneHistory(h int, faults bool) {
 	}
 	steps := ne + 3 + rng.Intn(9)
 	lastStrat, lastOk := -1, false
+	forceDefault := false
 	for s := 0; s < steps; s++ {
 		i := rng.Intn(ne)
 		r := rng.Intn(100)
@@ -606,10 +607,15 @@ func oneHistory(h int, faults bool) {
 		if !ents[i].present {
 			r = 0 // only runs make sense
 		}
+		if forceDefault {
+			r = 0
+		}
 		switch {
 		case r < 42:
 			strat := []int{9, 9, 9, 9, 1, 8, 4, 13, 25, 12, 5, 16, 2, 11, 10, 6, 14, 3}[rng.Intn(18)]
-			if lastOk && rng.Intn(2) == 0 {
+			if forceDefault {
+				strat, forceDefault = 9, false // the default flags right after an edit of a validity block only
+			} else if lastOk && rng.Intn(2) == 0 {
 				strat = lastStrat // "again with the same flags right after a successful run"
 			}
 			writes = nil
@@ -700,6 +706,7 @@ func oneHistory(h int, faults bool) {
 		case r < 62:
 			if rng.Intn(2) == 0 && ents[i].vstyle != 3 {
 				ents[i].vver++ // only the validity block changes
+				forceDefault = lastOk || rng.Intn(2) == 0
 			} else {
 				ents[i].vis++
 			}
